@@ -126,6 +126,18 @@ CHECKS = {
          "client steps: interleavings of two requests inside handleRequest are not explored (per-thread context is thread-local by construction).",
     technique="TLA+ spec + TLC; TLC-generated request histories replayed into the real daemon; TLC trace validation (monitor)",
     ref="6/C12"),
+ "C11": dict(
+    category="model_checking",
+    text="Batch.tla defines Run(calls) - the meaning of making a call list one by one, stopping at and including the first failure - and a model of "
+         "the daemon's member-by-member batch loop that TLC checks against it; Gen_Batch.tla enumerates every call list up to length 3 (4) over "
+         "add / keyword add / read / raising / append-then-raise / unexposed / private / missing; two identical journal objects in a real daemon "
+         "are driven through BatchProxy (normal, oneway, and a re-used BatchProxy) and call by call, for all four serializers; results, the "
+         "exception with its position, and the journals read back afterwards are validated by TLC against Run (Trace_Batch.tla).",
+    note="Trusted: the journal target object, the projection of exceptions to classes, in-memory transport, TLC. A failure surfacing at "
+         "submission instead of at its position is allowed by the statement. What a BatchProxy holds after a submission that itself raised is "
+         "not covered by the statement and not generated.",
+    technique="TLA+ spec + TLC; TLC-generated call lists replayed (batch vs one-by-one) into the real daemon; TLC trace validation (monitor)",
+    ref="6/C11"),
 }
 NOT_YET = {}
 ALL = ["C%02d" % i for i in range(1, 21)]
